@@ -1053,6 +1053,13 @@ func (m *Machine) initCall(fr *frame, instr *ssa.Call, fn value, args []value) (
 				res = m.zero(instr.Type())
 				return
 			}
+			if tp, ok := r.(*targetPanic); ok {
+				// typically a method call on the zero value left by an
+				// earlier out-of-reach initialiser
+				m.initProblems = append(m.initProblems, fr.fn.Pkg.Pkg.Path()+": panic "+tp.where)
+				res = m.zero(instr.Type())
+				return
+			}
 			panic(r)
 		}
 	}()
